@@ -59,6 +59,7 @@ type tree struct {
 	blocks map[string]*types.Block
 	txT    *types.Transaction // in a1
 	txNew  *types.Transaction // fresh valid tx for candidate blocks
+	txNew2 *types.Transaction // another fresh valid tx (by user 2)
 }
 
 var tr *tree
@@ -84,6 +85,7 @@ func buildTree() *tree {
 	}
 	t.txT = node.Transfer(node.User(0), node.User(1).Addr, node.Lemo(1), exp)
 	t.txNew = node.Transfer(node.User(1), node.User(2).Addr, node.Lemo(2), exp)
+	t.txNew2 = node.Transfer(node.User(2), node.User(1).Addr, node.Lemo(3), exp)
 	mk := func(name, parent string, rank int, txs types.Transactions) {
 		p := t.blocks[parent]
 		b, inv, err := f.Make(node.BlockSpec{Parent: p, Miner: node.Deputy(rank), Time: slot(f, p, rank, t0), Txs: txs, Extra: name})
@@ -213,6 +215,61 @@ func ops() []op {
 			cp.SetGasUsed(cp.GasUsed() + 1)
 			b.Txs = append(types.Transactions{cp}, b.Txs[1:]...)
 		}
+	})
+	// body: transactions, EXECUTED. The operators above change the list without re-executing, so the
+	// block is also inconsistent with its roots and a node may refuse it for that reason alone. A
+	// cheating deputy would execute what it packages: these operators let the block factory (the
+	// real assembler, which performs no window / replay checks) execute the changed list, so the
+	// block is consistent in every root and gas figure and wrong ONLY in the transaction it carries.
+	executed := func(name string, mk func(b *types.Block, c *ctx) types.Transactions) {
+		add("txs-executed", name, func(b *types.Block, c *ctx) {
+			rank := -1
+			for i := 0; i < nDep; i++ {
+				if node.Deputy(i).Addr == b.Header.MinerAddress {
+					rank = i
+				}
+			}
+			if rank < 0 {
+				return
+			}
+			txs := mk(b, c)
+			nb, inv, err := c.t.f.Make(node.BlockSpec{Parent: c.parent, Miner: node.Deputy(rank), Time: b.Header.Time, Txs: txs, Extra: b.Header.Extra, NoSave: true})
+			if err != nil || len(inv) > 0 || len(nb.Txs) != len(txs) {
+				return // the assembler itself does not package it: nothing to offer
+			}
+			*b = *node.Wire(nb)
+		})
+	}
+	plus := func(b *types.Block, tx *types.Transaction) types.Transactions {
+		return append(append(types.Transactions{}, b.Txs...), tx)
+	}
+	executed("tx-expired(executed)", func(b *types.Block, c *ctx) types.Transactions {
+		return plus(b, node.Transfer(node.User(2), node.User(0).Addr, node.Lemo(1), uint64(b.Header.Time-1)))
+	})
+	executed("tx-expires-now(executed,valid)", func(b *types.Block, c *ctx) types.Transactions {
+		return plus(b, node.Transfer(node.User(2), node.User(0).Addr, node.Lemo(1), uint64(b.Header.Time)))
+	})
+	executed("tx-lifetime-1800(executed,valid)", func(b *types.Block, c *ctx) types.Transactions {
+		return plus(b, node.Transfer(node.User(2), node.User(0).Addr, node.Lemo(1), uint64(b.Header.Time+1800)))
+	})
+	executed("tx-lifetime-1801(executed)", func(b *types.Block, c *ctx) types.Transactions {
+		return plus(b, node.Transfer(node.User(2), node.User(0).Addr, node.Lemo(1), uint64(b.Header.Time+1801)))
+	})
+	executed("tx-replayed-from-ancestor(executed)", func(b *types.Block, c *ctx) types.Transactions { return plus(b, c.t.txT) })
+	executed("tx-duplicated(executed)", func(b *types.Block, c *ctx) types.Transactions {
+		return append(plus(b, c.t.txNew2), c.t.txNew2)
+	})
+	executed("tx-wrong-chain(executed)", func(b *types.Block, c *ctx) types.Transactions {
+		to := node.User(0).Addr
+		return plus(b, node.Tx(node.TxSpec{Type: params.OrdinaryTx, From: node.User(2), To: &to, Amount: node.Lemo(1), Exp: uint64(t0 + 1500), ChainID: 201}))
+	})
+	executed("box-sub-tx-lifetime-1801(executed)", func(b *types.Block, c *ctx) types.Transactions {
+		sub := node.Transfer(node.User(2), node.User(0).Addr, node.Lemo(1), uint64(b.Header.Time+1801))
+		return plus(b, node.Box(node.User(0), uint64(b.Header.Time+100), sub))
+	})
+	executed("box-sub-tx-expired(executed)", func(b *types.Block, c *ctx) types.Transactions {
+		sub := node.Transfer(node.User(2), node.User(0).Addr, node.Lemo(1), uint64(b.Header.Time-1))
+		return plus(b, node.Box(node.User(0), uint64(b.Header.Time+100), sub))
 	})
 	// body: change logs
 	add("logs", "logs-dropped", func(b *types.Block, c *ctx) { b.ChangeLogs = nil })
@@ -443,7 +500,17 @@ func validRef(blk *types.Block, nowSec uint32) (bool, string) {
 		}
 		p = pp
 	}
+	// every transaction the block executes: its own list and the sub-transactions of boxes
+	var all types.Transactions
 	for _, tx := range blk.Txs {
+		all = append(all, tx)
+		if tx.Type() == params.BoxTx {
+			if box, err := types.GetBox(tx.Data()); err == nil {
+				all = append(all, box.SubTxList...)
+			}
+		}
+	}
+	for _, tx := range all {
 		if seen[tx.Hash()] {
 			return false, "replayed tx"
 		}
